@@ -175,6 +175,15 @@ def stepCal (st : CalState) (args : List String) : CalState × String :=
         | (pt, some i) => ({ st with cals := st.cals.set c (some { cr with ptab := pt }) }, okv i)
         | (_, none) => (st, failInval)
     | _, _ => (st, "bad-op")
+  | "make_correlated" :: c :: o :: _rest =>       -- the sigma arguments do not concern the table
+    match c.toNat?, o.toInt? with
+    | some c, some o => match (st.cals[c]?).join with
+      | none => (st, "bad-op")
+      | some cr =>
+        match cr.ptab.makeRef 4 o with
+        | (pt, some i) => ({ st with cals := st.cals.set c (some { cr with ptab := pt }) }, okv i)
+        | (_, none) => (st, failInval)
+    | _, _ => (st, "bad-op")
   | "delete_parameter" :: c :: [h] =>
     match c.toNat?, h.toInt? with
     | some c, some h => match (st.cals[c]?).join with
